@@ -965,9 +965,12 @@ Section Main.
     Hypothesis Hfe : forall e v, In e (m_elements m) -> In v (snd e) -> fits_elem (fits n) v (F v) = true.
 
     Definition item_ok (var : xvar) (y : value) : Prop :=
-      match v_tokens_factory var with
-      | Some tf => fits_tokens var tf y = true
-      | None => fits_item (fits n) var y = true
+      match y with
+      | VNone => v_nillable var = true /\ v_default var = DNone      (* <f xsi:nil="true"/> *)
+      | _ => match v_tokens_factory var with
+             | Some tf => fits_tokens var tf y = true
+             | None => fits_item (fits n) var y = true
+             end
       end.
     Definition ienode (var : xvar) (y : value) : XmlNs.enode :=
       match v_tokens_factory var with
@@ -978,21 +981,26 @@ Section Main.
     Lemma e_items_occ var x : is_elem_var var -> e_items (eobj n) var x = map (ienode var) (occ var x).
     Proof.
       intros Hv. destruct (elem_var_facts var Hv) as [_ [_ [_ [_ [Hkt _]]]]].
-      unfold RoundtripGen.e_items, occ, ienode. rewrite Hkt.
-      destruct x as [|p|tp l|k' f'|q0 t0 tl0 a0 c0|q0 v0 ty0|m0]; try reflexivity;
+      unfold RoundtripGen.e_items, occ, ienode.
+      destruct x as [|p|tp l|k' f'|q0 t0 tl0 a0 c0|q0 v0 ty0|m0];
+        [destruct (v_nillable var), (v_tokens_factory var); reflexivity|..]; rewrite Hkt; try reflexivity;
         destruct (v_tokens_factory var); try reflexivity.
       destruct l as [|y l']; [reflexivity|]. destruct y; reflexivity.
     Qed.
 
     Lemma e_field_occ var x : is_elem_var var ->
-      e_field (eobj n) var x = match x with VNone => [] | _ => e_wrap var (map (ienode var) (occ var x)) end.
+      e_field (eobj n) var x = match x with
+                               | VNone => if v_nillable var then e_wrap var (map (ienode var) (occ var x)) else []
+                               | _ => e_wrap var (map (ienode var) (occ var x))
+                               end.
     Proof. intros Hv. unfold RoundtripGen.e_field. rewrite (e_items_occ var x Hv). reflexivity. Qed.
 
     Lemma e_field_cases var x : is_elem_var var ->
       (e_field (eobj n) var x = [] /\ occ var x = [])
       \/ e_field (eobj n) var x = e_wrap var (map (ienode var) (occ var x)).
     Proof.
-      intros Hv. rewrite (e_field_occ var x Hv). destruct x; try (right; reflexivity). left. split; reflexivity.
+      intros Hv. rewrite (e_field_occ var x Hv). destruct x; try (right; reflexivity).
+      unfold occ. destruct (v_nillable var); [right; reflexivity|left; split; reflexivity].
     Qed.
 
     Lemma wf_elem_default var : wf_elem var = true ->
@@ -1015,6 +1023,20 @@ Section Main.
     Lemma eqb_bool a b : Bool.eqb a b = true -> a = b.
     Proof. destruct a, b; try reflexivity; discriminate. Qed.
 
+    Lemma item_ok_tok var tf z : v_tokens_factory var = Some tf -> fits_tokens var tf z = true -> item_ok var z.
+    Proof. intros Ht H. unfold item_ok. rewrite Ht. destruct z; try exact H. discriminate H. Qed.
+    Lemma item_ok_item var z : v_tokens_factory var = None -> fits_item (fits n) var z = true -> item_ok var z.
+    Proof.
+      intros Ht H. unfold item_ok. rewrite Ht. destruct z; try exact H.
+      exfalso. unfold Fits.fits_item in H. destruct (vtype var); discriminate H.
+    Qed.
+    Lemma item_ok_inv var z : z <> VNone -> item_ok var z ->
+      match v_tokens_factory var with
+      | Some tf => fits_tokens var tf z = true
+      | None => fits_item (fits n) var z = true
+      end.
+    Proof. intros Hz H. unfold item_ok in H. destruct z; try exact H. congruence. Qed.
+
     Lemma elem_value_facts var x : is_elem_var var -> fits_elem (fits n) var x = true ->
       Forall (item_ok var) (occ var x)
       /\ (v_factory var = None -> (length (occ var x) <= 1)%nat)
@@ -1023,7 +1045,7 @@ Section Main.
     Proof.
       intros Hv Hf. pose proof Hv as [Hw Hin].
       pose proof (wf_elem_default var Hw) as Hd.
-      unfold Fits.fits_elem in Hf. unfold item_ok, eentry, occ.
+      unfold Fits.fits_elem in Hf. unfold eentry, occ.
       assert (Hvt : v_types var = [vtype var]).
       { unfold vtype. destruct (v_types var) as [|t0 [|? ?]] eqn:Et; try reflexivity;
           unfold wf_elem, var_type in Hw; rewrite Et in Hw; rewrite !andb_false_r in Hw; discriminate. }
@@ -1036,13 +1058,13 @@ Section Main.
           intros _. apply (factory_default_call f); assumption.
         + pose proof (fits_tokens_inv c u ok py_isspace var tf y (vtype var) Hvt (Hl y (or_introl eq_refl))) as [ty [ly [Ey _]]].
           subst y.
-          split; [apply Forall_forall; intros z Hz; apply Hl; exact Hz|]. split; [discriminate|].
+          split; [apply Forall_forall; intros z Hz; apply (item_ok_tok var tf z Etf); apply Hl; exact Hz|]. split; [discriminate|].
           split; [|discriminate].
           intros pv E. cbn in E. inversion E; subst. cbn [pval_value]. rewrite is_tuple_f_eq. reflexivity.
       - (* list *)
         destruct x as [| |tp l| | | |]; try discriminate Hf. apply andb_true_iff in Hf as [Hfl Hl].
         apply eqb_bool in Hfl. rewrite forallb_forall in Hl.
-        split; [apply Forall_forall; exact Hl|]. split; [discriminate|]. split.
+        split; [apply Forall_forall; intros z Hz; apply (item_ok_item var z Etf (Hl z Hz))|]. split; [discriminate|]. split.
         + intros pv E. destruct l; [discriminate E|]. cbn in E. inversion E; subst. cbn [pval_value]. rewrite is_tuple_f_eq. reflexivity.
         + intros ->. apply (factory_default_call f); assumption.
       - (* tokens *)
@@ -1054,15 +1076,19 @@ Section Main.
           { unfold Fits.fits_tokens in Hf. apply andb_true_iff in Hf as [_ Hf]. cbn [forallb] in Hf.
             apply andb_true_iff in Hf as [Hy _]. destruct (token_is_leaf c u ok py_isspace _ _ _ Hy) as [p [-> _]]. exact I. }
           destruct y; try destruct Hy;
-            (split; [constructor; [exact Hf|constructor]|]; split; [intros _; cbn; lia|]; split;
+            (split; [constructor; [apply (item_ok_tok var tf _ Etf); exact Hf|constructor]|]; split; [intros _; cbn; lia|]; split;
              [intros pv E; cbn in E; inversion E; subst; reflexivity|discriminate]).
       - (* single *)
         destruct x eqn:Ex.
-        + split; [constructor|]. split; [intros _; cbn; lia|]. split; [intros pv E; cbn in E; discriminate E|].
-          intros _. destruct (v_default var); try discriminate Hf. reflexivity.
-        + split; [constructor; [exact Hf|constructor]|]. split; [intros _; cbn; lia|]. split; [intros pv E; cbn in E; inversion E; reflexivity|discriminate].
+        + assert (Hdn : v_default var = DNone) by (destruct (v_default var); try discriminate Hf; reflexivity).
+          destruct (v_nillable var) eqn:Enl.
+          * split; [constructor; [split; [exact Enl|exact Hdn]|constructor]|]. split; [intros _; cbn; lia|].
+            split; [intros pv E; cbn in E; inversion E; reflexivity|discriminate].
+          * split; [constructor|]. split; [intros _; cbn; lia|]. split; [intros pv E; cbn in E; discriminate E|].
+            intros _. rewrite Hdn. reflexivity.
+        + split; [constructor; [apply (item_ok_item var _ Etf); exact Hf|constructor]|]. split; [intros _; cbn; lia|]. split; [intros pv E; cbn in E; inversion E; reflexivity|discriminate].
         + exfalso. unfold Fits.fits_item in Hf. destruct (vtype var); discriminate Hf.
-        + split; [constructor; [exact Hf|constructor]|]. split; [intros _; cbn; lia|]. split; [intros pv E; cbn in E; inversion E; reflexivity|discriminate].
+        + split; [constructor; [apply (item_ok_item var _ Etf); exact Hf|constructor]|]. split; [intros _; cbn; lia|]. split; [intros pv E; cbn in E; inversion E; reflexivity|discriminate].
         + exfalso. unfold Fits.fits_item in Hf. destruct (vtype var); discriminate Hf.
         + exfalso. unfold Fits.fits_item in Hf. destruct (vtype var); discriminate Hf.
         + exfalso. unfold Fits.fits_item in Hf. destruct (vtype var); discriminate Hf.
@@ -1080,7 +1106,11 @@ Section Main.
     Lemma ienode_elem var y : is_elem_var var -> item_ok var y ->
       exists q a k, ienode var y = EElem q a k.
     Proof.
-      intros Hv Hok. pose proof Hv as [Hw Hin]. unfold ienode, item_ok in *.
+      intros Hv Hok. pose proof Hv as [Hw Hin].
+      assert (Hcase : y = VNone \/ y <> VNone) by (destruct y; [left; reflexivity|right; discriminate..]).
+      destruct Hcase as [->|Hyn].
+      { unfold ienode. destruct (v_tokens_factory var); cbn [RoundtripGen.e_item]; unfold RoundtripGen.e_prim; eauto. }
+      apply (item_ok_inv var y Hyn) in Hok. unfold ienode in *.
       destruct (v_tokens_factory var) as [tf|] eqn:Etf; [unfold RoundtripGen.e_prim; eauto|].
       destruct (wf_elem_inv var Hw) as [_ [_ [[k [Hty [Hcl _]]]|[[t [Hty [Hst _]]]|[Hty _]]]]].
       - destruct (fits_item_class c u ok _ var k y Hty Hok) as [cl' [fs' [-> [[-> Hfk]|[_ Hfk]]]]];
@@ -1171,6 +1201,17 @@ Section Main.
       rewrite Hany, Hwl. reflexivity.
     Qed.
 
+    Lemma build_node_prim_attrs var attrs ns pos asg wr :
+      is_elem_var var -> v_clazz var = None -> assoc XSI_TYPE attrs = None ->
+      build_node c u (enW asg wr) (v_qname var) var attrs ns pos = ROk (Some (NPrimitive m var ns)).
+    Proof.
+      intros Hv Hcl Hxt. pose proof Hv as [Hw _].
+      destruct (elem_var_facts var Hv) as [Hi [Hwl _]].
+      destruct (wf_elem_inv var Hw) as [_ [Hc _]]. destruct (var_common_inv var Hc) as [_ [_ [Hany _]]].
+      unfold build_node, v_is_clazz_union. rewrite Hcl. unfold Parser.xsi_type_of. rewrite Hxt. cbn [truthy_str rbind].
+      rewrite Hany, Hwl. reflexivity.
+    Qed.
+
     Lemma build_node_class var k mk attrs ns pos asg wr :
       is_elem_var var -> v_clazz var = Some k -> v_types var = [TClass k] ->
       u_meta u k = Some mk -> m_nillable mk = false ->
@@ -1217,7 +1258,8 @@ Section Main.
         /\ a = [PStart (v_qname var) [] ns;
                 PEnd (v_qname var) (match y_text (v_format var) y with [] => None | s => Some s end) tail].
     Proof.
-      intros Ht Hs Hr. unfold RoundtripGen.e_prim in Hr. cbn [reads] in Hr.
+      intros Ht Hs Hr. assert (Ene : nil_attr_e var y = []) by (destruct Hs; reflexivity).
+      unfold RoundtripGen.e_prim in Hr. rewrite Ene in Hr. cbn [reads] in Hr.
       destruct Hr as [attrs [ns [text [tail [kes [Ha [Hra [Htl Hk]]]]]]]]. destruct Hra as [_ [Hlen _]].
       rewrite clark_split in Ha. destruct attrs; [|discriminate Hlen].
       destruct (e_data_spec c u ok t _ y Hs) as [Hd Hat]. rewrite Hd in Hk.
@@ -1360,6 +1402,39 @@ Section Main.
       unfold finish_end. cbn [rbind fst snd st_warn]. rewrite app_nil_r. reflexivity.
     Qed.
 
+    (* None in a nillable field: <f xsi:nil="true"/> *)
+    Lemma xsi_type_not_nil : str_eqb XSI_TYPE XSI_NIL = false.
+    Proof. vm_compute. reflexivity. Qed.
+
+    Lemma nil_item_run var a asg wr wo Q objs W rest :
+      is_elem_var var -> v_nillable var = true -> v_default var = DNone ->
+      (v_factory var = None -> ~ In (v_index var) asg) -> wrap_agrees var wo ->
+      reads (ienode var VNone) a ->
+      prun (mk_pstate (ctx wo ++ NElement (enW asg wr) :: Q) objs W) (a ++ rest)
+      = prun (mk_pstate (ctx wo ++ NElement (enW (asg_after var asg) (wr_after var wo wr)) :: Q)
+                        (objs ++ [(Some (v_qname var), VNone)]) W) rest.
+    Proof.
+      intros Hv Hnl Hdn Hasg Hag Hr. pose proof Hv as [Hw _].
+      destruct (wf_elem_nil var Hw Hnl) as [t [Ht [Hst [Hcl Htf]]]].
+      assert (He : ienode var VNone = EElem (Bind.split_qname (v_qname var)) [(Bind.split_qname XSI_NIL, [AText EventGen.TRUE_STR])] []).
+      { unfold ienode. rewrite Htf. cbn [RoundtripGen.e_item]. unfold RoundtripGen.e_prim, nil_attr_e. rewrite Hnl. reflexivity. }
+      rewrite He in Hr. cbn [reads] in Hr.
+      destruct Hr as [attrs [ns [text [tail [kes [Ha [Hra [Htl [-> ->]]]]]]]]].
+      destruct Hra as [_ [Hlen Hall]].
+      destruct (Hall _ (or_introl eq_refl)) as [v [Hv1 Hv2]]. cbn [fst snd atoms_read] in Hv1, Hv2.
+      rewrite clark_split in Hv2. inversion Hv1; subst v.
+      destruct attrs as [|a0 [|? ?]]; try discriminate Hlen. destruct Hv2 as [->|[]].
+      rewrite clark_split in Ha. subst a. cbn [app].
+      rewrite (run_step cfg c u replay root _ _ _ _
+                 (start_child var _ ns asg wr wo Q objs W _ Hv Hasg Hag
+                    (build_node_prim_attrs var [(XSI_NIL, EventGen.TRUE_STR)] ns (length objs) asg wr Hv Hcl
+                       ltac:(cbn [assoc]; rewrite xsi_type_not_nil; reflexivity)))).
+      destruct (wf_class_inv m Hwc) as [F1 F2 F3 F4 F5 F6 F7 F8 F9 F10 F11 F12 F13].
+      apply run_step. cbn [Parser.step pend st_queue st_objects st_warn].
+      unfold primitive_bind, parse_var. cbn [truthy_str]. rewrite Ht, Htf, Hdn. cbn [parse_value default_none rbind].
+      rewrite Hnl, F6. unfold finish_end. cbn [rbind fst snd st_warn]. rewrite app_nil_r. reflexivity.
+    Qed.
+
     Lemma one_item_run var y a asg wr wo Q objs W rest :
       is_elem_var var -> item_ok var y ->
       (v_factory var = None -> ~ In (v_index var) asg) -> wrap_agrees var wo ->
@@ -1368,7 +1443,10 @@ Section Main.
       = prun (mk_pstate (ctx wo ++ NElement (enW (asg_after var asg) (wr_after var wo wr)) :: Q) (objs ++ [(Some (v_qname var), y)]) W) rest.
     Proof.
       intros Hv Hok Hasg Hag Hr. pose proof Hv as [Hw Hin].
-      unfold item_ok in Hok. unfold ienode in Hr.
+      assert (Hcase : y = VNone \/ y <> VNone) by (destruct y; [left; reflexivity|right; discriminate..]).
+      destruct Hcase as [->|Hyn].
+      { destruct Hok as [Hnl Hdn]. apply (nil_item_run var a asg wr wo Q objs W rest Hv Hnl Hdn Hasg Hag Hr). }
+      apply (item_ok_inv var y Hyn) in Hok. unfold ienode in Hr.
       destruct (wf_elem_inv var Hw) as [_ [_ [[k [Hty [Hcl Htf]]]|[[t [Hty [Hst Hcl]]]|[Hty [Hcl Htf]]]]]].
       3:{ rewrite Htf in *. destruct (fits_item_qname c u ok _ var y Hty Hok) as [q1 [-> [Hokq Hq]]].
           cbn [RoundtripGen.e_item] in Hr.
@@ -1628,7 +1706,7 @@ Section Main.
           - destruct (fits_item_simple c u ok _ var t0 x Hty Hst Hfl) as [p [-> _]]. reflexivity.
           - destruct (fits_item_qname c u ok _ var x Hty Hfl) as [q1 [-> _]]. reflexivity. }
         rewrite Ho. split; [exact Hv|split].
-        + constructor; [|constructor]. unfold item_ok. rewrite Htf. exact Hfl.
+        + constructor; [|constructor]. apply (item_ok_item var x Htf Hfl).
         + intros _. cbn. lia.
     Qed.
 
@@ -2158,15 +2236,16 @@ Section Main.
       assert (Hpairs : pairs cl fs m = emit1 fs tv).
       { rewrite (pairs_plain cl fs m Hwc Hnames), Hevars; [cbn [flat_map]; apply app_nil_r|].
         intros var Hv. rewrite Hevars in Hv. destruct Hv as [<-|[]].
-        split; [apply (wf_text_noseq tv Hwt)|left; apply (wf_text_nonil tv Hwt)]. }
+        apply (wf_text_noseq tv Hwt). }
       assert (Hkf : flat_map (fun vv => e_field (eobj n) (fst vv) (snd vv)) (pairs cl fs m) = e_field (eobj n) tv (field_of fs tv)).
-      { rewrite Hpairs. unfold emit1. destruct (field_of fs tv); cbn [flat_map fst snd]; rewrite ?app_nil_r; reflexivity. }
+      { rewrite Hpairs. unfold emit1, EventGen.emit, RoundtripGen.e_field. rewrite (wf_text_nonil tv Hwt).
+        destruct (field_of fs tv); cbn [flat_map fst snd]; rewrite ?app_nil_r; reflexivity. }
       rewrite Hkf in Hk.
       destruct (wf_text_inv tv Hwt) as [Hkt _].
       destruct (text_field_shape fs tv Hwt Hft) as [[Ex _]|[[t [Ht [Hs _]]]|[q1 [Ht [Htf [Eq [Hokq Hqok]]]]]]].
       + (* no value *)
         assert (Htext : text = text_of fs tv /\ kes = []).
-        { unfold text_of. rewrite Ex in *. unfold RoundtripGen.e_field in Hk. exact Hk. }
+        { unfold text_of. rewrite Ex in *. unfold RoundtripGen.e_field in Hk. rewrite (wf_text_nonil tv Hwt) in Hk. exact Hk. }
         destruct Htext as [-> ->]. cbn [app]. apply run_step.
         apply (end_simple cl fs m Hwc Hmc Hnames Hfa xt Hxq attrs ns (length objs) xtv tv [] [] (elem_name qn cl) tail Q objs W Htx Hft eq_refl Hra Htl).
         intros q1 E. rewrite Ex in E. discriminate E.
@@ -2195,9 +2274,10 @@ Section Main.
         assert (Hitems : In e (map (ienode n var) (occ var x)) -> exists q a k, e = EElem q a k).
         { intros Hi. apply in_map_iff in Hi as [y [<- Hy]].
           rewrite Forall_forall in Hio. apply (ienode_elem fs m n Hfe var y Hv (Hio y Hy)). }
-        destruct x; try destruct He;
-          (unfold RoundtripGen.e_wrap in He; destruct (v_wrapper_qname var) as [[|ch w]|];
-           [apply Hitems; exact He|destruct He as [<-|[]]; eauto|apply Hitems; exact He]). }
+        assert (He' : In e (e_wrap var (map (ienode n var) (occ var x)))).
+        { destruct x; try exact He. destruct (v_nillable var); [exact He|destruct He]. }
+        clear He. unfold RoundtripGen.e_wrap in He'. destruct (v_wrapper_qname var) as [[|ch w]|];
+          [apply Hitems; exact He'|destruct He' as [<-|[]]; eauto|apply Hitems; exact He']. }
       destruct (pairs_run cl fs m Hwc Hmc n Hfe IH Hwf Hm Hnest attrs ns (length objs) xtv (pairs cl fs m) kes [] [] Q objs W
                   (PEnd (elem_name qn cl) text tail :: rest) Htx Hpf
                   (ps_once _ _ _ _ (class_pairs_fits c u ok _ _ cl fs m Hwc Hnames Hfe))
